@@ -149,6 +149,9 @@ pub struct SinkPlan {
     /// every call fails from the start (hostile device)
     #[serde(default)]
     pub hostile: bool,
+    /// writes are accepted, flush() fails (a buffering device whose medium is full)
+    #[serde(default, skip_serializing_if = "std::ops::Not::not")]
+    pub flush_fails: bool,
 }
 
 /// How one simulated file argument is delivered (hook H2). The content comes from the case.
@@ -571,6 +574,7 @@ impl Write for SimSink {
         let (pos, failed) = {
             let s = if is_err { &g.err } else { &g.out };
             let sticky_failed = s.plan.hostile
+                || s.plan.flush_fails
                 || (s.fault_delivered && s.plan.fail.as_ref().map_or(false, |f| f.sticky));
             (s.data.len(), sticky_failed)
         };
